@@ -437,6 +437,11 @@ def run(ctx, tier):
                         newk = 'fmt'
                     elif rv['k'] == 'agg' and rv.get('agg') == 'closure' and 'cmp' not in kinds:
                         newk = 'clock'      # a closure that captures the start instant (`let expired = move || start.elapsed() > timeout`)
+                    elif rv['k'] == 'agg' and rv.get('agg') == 'adt' and 'cmp' not in kinds and \
+                            (b.crate.adts.get(rv.get('adt')) or {}).get('pub') is False:
+                        # a private helper struct of this crate that carries the start instant (`Deadline { started_at, budget }`):
+                        # the whole value counts as a clock value, so it may only be read by clock operations and comparisons
+                        newk = 'clock'
                     else:
                         viol.append((bi, si, 'clock-derived value used in %s' % (rv.get('op') or rv['k'])))
                         continue
